@@ -50,6 +50,13 @@ class GzipShim(object):
 
 
 def build_results(kind):
+    if kind == "long-chain":
+        # more than a thousand entries in one chain (writers that split long traces into blocks show only here)
+        data = traces.named_data(2, grid=2, outlier_prob=0.2)
+        states = oracle.all_states(2, outliers=True)
+        dicts = [oracle.build(s_, data).to_dict() for s_ in states]
+        chains = {0: [(dicts[(i * i + 3 * i) % len(dicts)], -1.0 - (i % 17) * 0.25) for i in range(1101)], 1: [(dicts[i % len(dicts)], -2.0 - (i % 5)) for i in range(7)]}
+        return traces.make_results(data, ["S"], chains), None
     if kind in ("four-chains", "many-entries", "big-data"):
         data = traces.named_data(4, dims=2, grid=(101 if kind == "big-data" else 5), outlier_prob=0.2)
         states = oracle.all_states(4, outliers=True)
@@ -140,7 +147,7 @@ def prefix_work(item):
             if r[0] != "OUT":
                 res["problems"].append({"what": "reader %s fails on the complete file: %s" % (name, r[1]), "prefix": len(stream)})
                 return res
-        for L in range(lo, min(hi, len(stream))):
+        for L in (lo if hi is None else range(lo, min(hi, len(stream)))):
             with open(path, "wb") as fh:
                 fh.write(stream[:L])
             got = run_readers(path, outdir)
@@ -215,11 +222,18 @@ def main(tier, seed):
         step = max(1, n // 32 + 1)
         for lo in range(0, n, step):
             items.append((k, lo, lo + step))
+    # the long trace: a systematic subset of its crash points (every `stride`-th byte and the whole tail)
+    n, nb = stream_len("long-chain")
+    stride = 41 if tier == "quick" else 7
+    info["long-chain"] = {"bytes": n, "write_calls": nb, "crash_points": "every %d-th byte and the last 400 bytes" % stride}
+    pts = sorted(set(range(0, n, stride)) | set(range(max(0, n - 400), n)))
+    for i in range(0, len(pts), 40):
+        items.append(("long-chain", pts[i:i + 40], None))
     chk.note("streams", info)
     exc = {}
     for r in pool_imap(prefix_work, items, chunksize=1):
         chk.evaluations += r["n"]
-        chk.n_nontrivial_extra += r["n"] - (3 if r["item"][1] == 0 else 0)
+        chk.n_nontrivial_extra += r["n"] - (3 if (r["item"][1] == 0 or (isinstance(r["item"][1], list) and 0 in r["item"][1])) else 0)
         chk.bump("reader_runs_that_raised", r["raised"])
         chk.bump("reader_runs_identical_to_complete_file", r["identical"])
         for t, c in r["exc_types"].items():
@@ -227,7 +241,7 @@ def main(tier, seed):
         for pr in r["problems"][:3]:
             chk.violation({"sub": "truncated-read", "trace": r["item"][0]}, {"trace": r["item"][0], "problem": pr["what"]}, {"kind": r["item"][0], "prefix": pr["prefix"]})
     chk.note("exception_types", exc)
-    for k in kinds:
+    for k in kinds + ["long-chain"]:
         r = enospc_work(k)
         chk.evaluations += r["n"]
         chk.n_nontrivial_extra += r["n"]
@@ -246,6 +260,6 @@ def replay(path):
     if "enospc_at" in rp:
         r = enospc_work(rp["kind"])
     else:
-        r = prefix_work((rp["kind"], rp["prefix"], rp["prefix"] + 1))
+        r = prefix_work((rp["kind"], [rp["prefix"]], None))
     print(r["problems"])
     return 1 if r["problems"] else 0
